@@ -233,10 +233,23 @@ def run_size_nv(lib, scene, seed, S, nsteps, ref, jb):
     return dict(S=S, kind='violation', warn=[], steps=0)
 
 
+def sizes_for(need, quick, low_only=False):
+  sizes = set([need - 1, need, need + 64, 0, 1, 8, 63, 64])
+  if low_only:
+    return sorted(sizes | set(range(0, min(need, 8192), 32 if quick else 8)))
+  if quick:
+    # ~150 sizes per scene: every failure window wider than need/150 (>= 64 bytes) is hit at least once
+    sizes |= set(range(0, need, max(64, (need // 150) // 8 * 8)))
+    sizes |= set(range(0, min(need, 4096), 32))
+  else:
+    sizes |= set(range(0, need, 64))
+    sizes |= set(range(0, min(need, 8192), 8))
+  return sorted(x for x in sizes if x >= 0)
+
+
 def handler(job):
-  """mode 'bisect': -> dict(need, maxuse_unbounded, ref=[(ncon, nefc)...]);  sizes in job['avoid'] are not executed
-  (they killed an earlier worker) and count as not clean.
-  mode 'sweep': -> dict(outcomes=[...], violations=[...]) for job['sizes']."""
+  """One chunk of one scene: bisect the need (sizes in job['avoid'] killed an earlier worker: not executed, not clean),
+  then run this chunk's share of the swept sizes (those >= job['min_size'])."""
   variant = job['variant']
   lib = lib_for(variant)
   scene, seed, nsteps = job['scene'], job['seed'], job['nsteps']
@@ -246,29 +259,38 @@ def handler(job):
     ref, maxuse = reference(lib, scene, seed, nsteps)
     res['ref'] = [(r['ncon'], r['nefc']) for r in ref]
     res['maxuse_unbounded'] = maxuse
-    if job['mode'] == 'bisect':
+    need = job.get('need')
+    if need is None:
       avoid = set(job.get('avoid', []))
+      jb['phase'] = 'bisect'
 
       def is_clean(S):
         if S in avoid:
           return False
         return clean(run_size_nv(lib, scene, seed, S, nsteps, ref, jb), nsteps)
-      hi = 2 * maxuse + 4096
+      # mjData.maxuse_arena of the unbounded run is documented as the sizing hint: bracket the need around it first
+      hi = maxuse + 1024
       while not is_clean(hi):
-        hi *= 2
+        hi = 2 * hi + 4096
         if hi > (1 << 28):
           raise Viol('no memory size up to 256MB gives a clean run', 'need-search')
-      lo = 0
-      while hi - lo > 1:
+      lo = max(0, maxuse - 64)
+      if hi > maxuse + 1024 or is_clean(lo):
+        lo = 0
+      while hi - lo > 16:
         mid = (lo + hi) // 2
         if is_clean(mid):
           hi = mid
         else:
           lo = mid
-      res['need'] = hi
-      return res
-    need = job['need']
-    for S in job['sizes']:
+      need = hi
+    res['need'] = need
+    jb['phase'] = 'sweep'
+    sizes = sizes_for(need, job['quick'], low_only=job['quick'] and 'pair-window' in scene['labels'])
+    sizes = [x for x in sizes[job['chunk']::job['nchunk']] if x >= job.get('min_size', 0)]
+    if job.get('only'):
+      sizes = job['only']
+    for S in sizes:
       try:
         o = run_size(lib, scene, seed, S, nsteps, ref, jb)
       except Viol as e:
